@@ -2110,4 +2110,355 @@ theorem cancelWith_isOk (self rxn : Equil α) (ks : List String) :
       exact ⟨c, by rw [List.foldlM_cons, hc1]; exact hc⟩
 
 
+/-! ### success of as_reactions -/
+
+section field
+variable [Field α] [DecidableEq α]
+
+/-- `nb − nf` of `as_reactions` -/
+def deltaN (e : Equil α) : Int := ((sumVals e.prod : Nat) : Int) - ((sumVals e.reac : Nat) : Int)
+
+theorem powInt_cases (x : α) (n : Int) :
+    ((n < 0 → x ≠ 0) ∧ powInt x n = .ok (x ^ n)) ∨ (¬ (n < 0 → x ≠ 0) ∧ powInt x n = .error "ZeroDivisionError") := by
+  by_cases h : n < 0 → x ≠ 0
+  · left
+    obtain ⟨p, hp⟩ := (powInt_isOk x n).2 h
+    exact ⟨h, by rw [hp, (powInt_ok hp).1]⟩
+  · right
+    refine ⟨h, ?_⟩
+    have hn : n < 0 := by by_contra hc; exact h (fun h' => absurd h' hc)
+    have hx : x = 0 := by by_contra hc; exact h (fun _ => hc)
+    unfold powInt
+    simp [hn, hx]
+
+/-- `as_reactions` returns the pair **iff** exactly one of `kf`, `kb` is given, the equilibrium has a constant `K`,
+    `c0 ** (nb − nf)` is defined (`c0 ≠ 0` for a negative exponent), the divisor `K · c0^(nb−nf)` is non-zero when `kf` is the
+    given one, and the equilibrium has a net effect (the two `Reaction` constructors' check). -/
+theorem asReactions_isOk (e : Equil α) (kf kb : Option α) (c0 : α) :
+    (∃ p, asReactions e kf kb c0 = .ok p) ↔
+      (kf.isSome = !kb.isSome) ∧
+      (∃ K, e.K = some K ∧ (deltaN e < 0 → c0 ≠ 0) ∧ (kf.isSome = true → K * c0 ^ deltaN e ≠ 0)) ∧
+      ∃ k, e.net k ≠ 0 := by
+  have hany : e.anyEffect = true ↔ ∃ k, e.net k ≠ 0 := anyEffect_iff e
+  unfold asReactions deltaN
+  simp only []
+  generalize ((sumVals e.prod : Nat) : Int) - ((sumVals e.reac : Nat) : Int) = d
+  cases kf with
+  | none =>
+    cases kb with
+    | none => simp [bind, Except.bind]
+    | some b =>
+      cases hK : e.K with
+      | none => simp [bind, Except.bind]
+      | some K =>
+        rcases powInt_cases c0 d with ⟨h1, h2⟩ | ⟨h1, h2⟩
+        · simp only [h2, bind, Except.bind, pure, Except.pure]
+          by_cases ha : e.anyEffect = true
+          · simp only [ha, if_true]
+            constructor
+            · intro _; exact ⟨by simp, ⟨K, rfl, h1, by simp⟩, hany.1 ha⟩
+            · intro _; exact ⟨_, rfl⟩
+          · simp only [ha]
+            constructor
+            · rintro ⟨p, hp⟩; cases hp
+            · rintro ⟨_, _, h3⟩; exact absurd (hany.2 h3) ha
+        · simp only [h2, bind, Except.bind]
+          constructor
+          · rintro ⟨p, hp⟩; cases hp
+          · rintro ⟨_, ⟨K', hK', h3, _⟩, _⟩; exact absurd h3 h1
+  | some f =>
+    cases kb with
+    | some b => simp [bind, Except.bind]
+    | none =>
+      rcases powInt_cases c0 d with ⟨h1, h2⟩ | ⟨h1, h2⟩
+      · cases hK : e.K with
+        | none => simp [h2, bind, Except.bind]
+        | some K =>
+          simp only [h2, bind, Except.bind, pure, Except.pure, Nat.cast_zero]
+          by_cases hz : K * c0 ^ d = 0
+          · simp only [hz, if_true]
+            constructor
+            · rintro ⟨p, hp⟩; cases hp
+            · rintro ⟨_, ⟨K', hK', _, h4⟩, _⟩
+              injection hK' with hK'
+              subst hK'
+              exact absurd hz (h4 rfl)
+          · simp only [hz, if_false]
+            by_cases ha : e.anyEffect = true
+            · simp only [ha, if_true]
+              constructor
+              · intro _; exact ⟨by simp, ⟨K, rfl, h1, fun _ => hz⟩, hany.1 ha⟩
+              · intro _; exact ⟨_, rfl⟩
+            · simp only [ha]
+              constructor
+              · rintro ⟨p, hp⟩; cases hp
+              · rintro ⟨_, _, h3⟩; exact absurd (hany.2 h3) ha
+      · simp only [h2, bind, Except.bind]
+        constructor
+        · rintro ⟨p, hp⟩; cases hp
+        · rintro ⟨_, ⟨K', _, h3, _⟩, _⟩; exact absurd h3 h1
+
+end field
+
+/-! ### the constructor with arbitrary checks -/
+
+set_option linter.unusedSimpArgs false
+
+/-- the names of the checks the constructor runs: `checks`, or `default_checks ^ (dont_check or set())` -/
+def checkNames (checks dontCheck : Option (List String)) : List String :=
+  match checks with
+  | some c => c
+  | none => symmDiff defaultChecks (match dontCheck with | some d => d | none => [])
+
+/-- the object the constructor stores for non-negative coefficients -/
+def storedEquil (d : Bool) (r p ir ip : List (String × Int)) (K : Option α) : Equil α :=
+  ⟨initStoich d (r.map fun kv => (kv.1, kv.2.toNat)), initStoich d (p.map fun kv => (kv.1, kv.2.toNat)),
+   initStoich d (ir.map fun kv => (kv.1, kv.2.toNat)), initStoich d (ip.map fun kv => (kv.1, kv.2.toNat)), K⟩
+
+theorem net_storedEquil (d : Bool) (r p ir ip : List (String × Int)) (K : Option α)
+    (hall : ∀ kv ∈ r ++ p ++ ir ++ ip, 0 ≤ kv.2) (k : String) :
+    (storedEquil d r p ir ip K).net k = getI p k - getI r k + getI ip k - getI ir k := by
+  have hr : ∀ kv ∈ r, 0 ≤ kv.2 := fun kv h => hall kv (by simp [h])
+  have hp : ∀ kv ∈ p, 0 ≤ kv.2 := fun kv h => hall kv (by simp [h])
+  have hir : ∀ kv ∈ ir, 0 ≤ kv.2 := fun kv h => hall kv (by simp [h])
+  have hip : ∀ kv ∈ ip, 0 ≤ kv.2 := fun kv h => hall kv (by simp [h])
+  simp only [storedEquil, Equil.net, get_initStoich, get_nat _ k hr, get_nat _ k hp, get_nat _ k hir, get_nat _ k hip]
+
+theorem mkEqChecks_eq (d : Bool) (r p ir ip : List (String × Int)) (K : Option α) (cs dc : Option (List String)) :
+    mkEqChecks d r p ir ip K cs dc =
+      if cs.isSome && dc.isSome then .error "ValueError"
+      else if (checkNames cs dc).any (fun c => !defaultChecks.contains c) then .error "AttributeError"
+      else if (checkNames cs dc).contains "all_positive" && !rawAllPositive r p ir ip then .error "ValueError"
+      else if !rawAllPositive r p ir ip then .error "!negative-unchecked"
+      else if (checkNames cs dc).contains "any_effect" && !(storedEquil d r p ir ip K).anyEffect then .error "ValueError"
+      else .ok (storedEquil d r p ir ip K) := rfl
+
+/-- The constructor with ANY `checks` / `dont_check` arguments, for coefficients none of which is negative: it returns an
+    object **iff** not both arguments are given, every requested check exists, and — if `any_effect` is among the checks —
+    some species has a non-zero net coefficient. The object then stores exactly the given coefficients. -/
+theorem mkEqChecks_isOk (d : Bool) (r p ir ip : List (String × Int)) (K : Option α) (cs dc : Option (List String))
+    (hall : ∀ kv ∈ r ++ p ++ ir ++ ip, 0 ≤ kv.2) :
+    (∃ e, mkEqChecks d r p ir ip K cs dc = .ok e) ↔
+      ¬ (cs.isSome = true ∧ dc.isSome = true) ∧ (∀ c ∈ checkNames cs dc, c ∈ defaultChecks) ∧
+      ("any_effect" ∈ checkNames cs dc → ∃ k, getI p k - getI r k + getI ip k - getI ir k ≠ 0) := by
+  have hpos : rawAllPositive r p ir ip = true := (rawAllPositive_iff r p ir ip).2 hall
+  rw [mkEqChecks_eq]
+  simp only [hpos, Bool.not_true, Bool.and_false, Bool.false_eq_true, if_false]
+  by_cases hboth : (cs.isSome && dc.isSome) = true
+  · simp only [hboth, if_true]
+    constructor
+    · rintro ⟨e, he⟩; cases he
+    · rintro ⟨h1, _⟩; exact absurd (by simpa using hboth) h1
+  · have hboth' : ¬ (cs.isSome = true ∧ dc.isSome = true) := by simpa using hboth
+    simp only [hboth, if_false]
+    by_cases hbad : (checkNames cs dc).any (fun c => !defaultChecks.contains c) = true
+    · simp only [hbad, if_true]
+      constructor
+      · rintro ⟨e, he⟩; cases he
+      · rintro ⟨_, h2, _⟩
+        rw [List.any_eq_true] at hbad
+        obtain ⟨c, hc, hc'⟩ := hbad
+        have := h2 c hc
+        simp [List.contains_iff_mem, this] at hc'
+    · simp only [hbad, if_false]
+      have hsub : ∀ c ∈ checkNames cs dc, c ∈ defaultChecks := by
+        intro c hc
+        by_contra hn
+        apply hbad
+        rw [List.any_eq_true]
+        exact ⟨c, hc, by simp [List.contains_iff_mem, hn]⟩
+      have hnet := net_storedEquil d r p ir ip K hall
+      by_cases hae : (checkNames cs dc).contains "any_effect" = true
+      · have hmem : "any_effect" ∈ checkNames cs dc := by simpa [List.contains_iff_mem] using hae
+        by_cases hany : (storedEquil d r p ir ip K).anyEffect = true
+        · simp only [hae, hany, Bool.not_true, Bool.and_false, Bool.false_eq_true, if_false]
+          obtain ⟨k, hk⟩ := (anyEffect_iff _).1 hany
+          exact ⟨fun _ => ⟨hboth', hsub, fun _ => ⟨k, by rw [← hnet k]; exact hk⟩⟩, fun _ => ⟨_, rfl⟩⟩
+        · have hany' : (storedEquil d r p ir ip K).anyEffect = false := by simpa using hany
+          simp only [hae, hany', Bool.not_false, Bool.and_self, if_true]
+          constructor
+          · rintro ⟨e, he⟩; cases he
+          · rintro ⟨_, _, h3⟩
+            obtain ⟨k, hk⟩ := h3 hmem
+            exact absurd ((anyEffect_iff _).2 ⟨k, by rw [hnet k]; exact hk⟩) hany
+      · have hae' : (checkNames cs dc).contains "any_effect" = false := by simpa using hae
+        have hnmem : "any_effect" ∉ checkNames cs dc := by
+          intro h; apply hae; simpa [List.contains_iff_mem] using h
+        simp only [hae', Bool.false_and, Bool.false_eq_true, if_false]
+        exact ⟨fun _ => ⟨hboth', hsub, fun h => absurd h hnmem⟩, fun _ => ⟨_, rfl⟩⟩
+
+/-- the region the model cannot represent (outcome `!negative-unchecked`, Python stores the negative number there) is exactly:
+    arguments otherwise accepted, `all_positive` not among the checks, and some coefficient negative -/
+theorem negative_unchecked_iff (d : Bool) (r p ir ip : List (String × Int)) (K : Option α) (cs dc : Option (List String)) :
+    mkEqChecks d r p ir ip K cs dc = .error "!negative-unchecked" ↔
+      ¬ (cs.isSome = true ∧ dc.isSome = true) ∧ (∀ c ∈ checkNames cs dc, c ∈ defaultChecks) ∧
+      "all_positive" ∉ checkNames cs dc ∧ ∃ kv ∈ r ++ p ++ ir ++ ip, kv.2 < 0 := by
+  rw [mkEqChecks_eq]
+  have hneg : (∃ kv ∈ r ++ p ++ ir ++ ip, kv.2 < 0) ↔ rawAllPositive r p ir ip = false := by
+    rw [← Bool.not_eq_true, rawAllPositive_iff]
+    constructor
+    · rintro ⟨kv, h1, h2⟩ h; have := h kv h1; omega
+    · intro h
+      by_contra hc
+      apply h
+      intro kv hkv
+      by_contra hlt
+      exact hc ⟨kv, hkv, by omega⟩
+  rw [hneg]
+  by_cases hboth : (cs.isSome && dc.isSome) = true
+  · have : cs.isSome = true ∧ dc.isSome = true := by simpa using hboth
+    simp [hboth, this]
+  · have hboth' : ¬ (cs.isSome = true ∧ dc.isSome = true) := by simpa using hboth
+    simp only [hboth, if_false]
+    by_cases hbad : (checkNames cs dc).any (fun c => !defaultChecks.contains c) = true
+    · simp only [hbad, if_true]
+      constructor
+      · intro h; injection h with h; exact absurd h (by decide)
+      · rintro ⟨_, h2, _⟩
+        rw [List.any_eq_true] at hbad
+        obtain ⟨c, hc, hc'⟩ := hbad
+        have := h2 c hc
+        simp [List.contains_iff_mem, this] at hc'
+    · have hsub : ∀ c ∈ checkNames cs dc, c ∈ defaultChecks := by
+        intro c hc
+        by_contra hn
+        apply hbad
+        rw [List.any_eq_true]
+        exact ⟨c, hc, by simp [List.contains_iff_mem, hn]⟩
+      simp only [hbad, if_false]
+      by_cases hpos : rawAllPositive r p ir ip = true
+      · simp only [hpos, Bool.not_true, Bool.and_false, Bool.false_eq_true, if_false]
+        constructor
+        · intro h; split at h <;> first | cases h | (injection h with h'; exact absurd h' (by decide))
+        · rintro ⟨_, _, _, h4⟩; cases h4
+      · have hpos' : rawAllPositive r p ir ip = false := by simpa using hpos
+        simp only [hpos', Bool.not_false, Bool.and_true, if_true]
+        by_cases hap : (checkNames cs dc).contains "all_positive" = true
+        · have hmem : "all_positive" ∈ checkNames cs dc := by simpa [List.contains_iff_mem] using hap
+          simp only [hap, if_true]
+          constructor
+          · intro h; injection h with h; exact absurd h (by decide)
+          · rintro ⟨_, _, h3, _⟩; exact absurd hmem h3
+        · have hnmem : "all_positive" ∉ checkNames cs dc := by
+            intro h; apply hap; simpa [List.contains_iff_mem] using h
+          simp only [hap, if_false]
+          exact ⟨fun _ => ⟨hboth', hsub, hnmem, trivial⟩, fun _ => rfl⟩
+
+
+/-! ### success of the two-term combination -/
+
+section field
+variable [Field α] [DecidableEq α]
+
+/-- when does the two-term combination `m₁*e₁ + m₂*e₂` evaluate (both multipliers non-zero, both operands with a net effect)? -/
+theorem combination_isOk (e1 e2 : Equil α) (m1 m2 : Int) (hm1 : m1 ≠ 0) (hm2 : m2 ≠ 0)
+    (he1 : ∃ k, e1.net k ≠ 0) (he2 : ∃ k, e2.net k ≠ 0) :
+    (∃ r1 r2 r, rmul m1 e1 = .ok r1 ∧ rmul m2 e2 = .ok r2 ∧ add r1 r2 = .ok r) ↔
+      (m1 < 0 → e1.K ≠ some 0) ∧ (m2 < 0 → e2.K ≠ some 0) ∧ (e1.K = none ↔ e2.K = none) ∧
+      ∃ k, m1 * e1.activeNet k + m2 * e2.activeNet k ≠ 0 := by
+  have knone : ∀ {n : Int} {e r : Equil α}, rmul n e = .ok r → (r.K = none ↔ e.K = none) := by
+    intro n e r h
+    rw [(K_rmul' h).1]; cases e.K <;> simp
+  constructor
+  · rintro ⟨r1, r2, r, h1, h2, h3⟩
+    obtain ⟨_, _, hK1⟩ := (rmul_isOk m1 e1).1 ⟨r1, h1⟩
+    obtain ⟨_, _, hK2⟩ := (rmul_isOk m2 e2).1 ⟨r2, h2⟩
+    obtain ⟨hKK, k, hk⟩ := (add_isOk r1 r2).1 ⟨r, h3⟩
+    refine ⟨hK1, hK2, ?_, k, ?_⟩
+    · rw [← knone h1, ← knone h2]; exact hKK
+    · rw [← activeNet_rmul h1, ← activeNet_rmul h2]; exact hk
+  · rintro ⟨hK1, hK2, hKK, k, hk⟩
+    obtain ⟨r1, h1⟩ := (rmul_isOk m1 e1).2 ⟨hm1, he1, hK1⟩
+    obtain ⟨r2, h2⟩ := (rmul_isOk m2 e2).2 ⟨hm2, he2, hK2⟩
+    obtain ⟨r, h3⟩ := (add_isOk r1 r2).2 ⟨by rw [knone h1, knone h2]; exact hKK, k, by
+      rw [activeNet_rmul h1, activeNet_rmul h2]; exact hk⟩
+    exact ⟨r1, r2, r, h1, h2, h3⟩
+
+end field
+
+/-! ### order facts -/
+
+/-- `primeFactors n` is strictly ascending (hence without repetition), as `sympy.primefactors` returns it -/
+theorem primeFactors_sorted (n : Nat) : (primeFactors n).Pairwise (· < ·) := by
+  unfold primeFactors
+  exact List.Pairwise.filter _ List.pairwise_lt_range
+
+/-- the magnitude of what `cancel` returns does not depend on the iteration order of the set `rxn.keys()`
+    (only the sign can, on ties) -/
+theorem cancelWith_natAbs_perm {self rxn : Equil α} {ks ks' : List String} (hp : ks.Perm ks')
+    {c c' : Option Int} (h : cancelWith self rxn ks = .ok c) (h' : cancelWith self rxn ks' = .ok c') :
+    c.map Int.natAbs = c'.map Int.natAbs := by
+  obtain ⟨_, hn, hs⟩ := cancelWith_ok h
+  obtain ⟨_, hn', hs'⟩ := cancelWith_ok h'
+  cases c with
+  | none =>
+    have : ks = [] := hn.1 rfl
+    subst this
+    have : ks' = [] := List.Perm.eq_nil (hp.symm)
+    rw [hn'.2 this]
+  | some r =>
+    cases c' with
+    | none =>
+      have : ks' = [] := hn'.1 rfl
+      subst this
+      have : ks = [] := List.Perm.eq_nil hp
+      have := hn.2 this
+      cases this
+    | some r' =>
+      obtain ⟨⟨k, hk, hrk⟩, hmin⟩ := hs r rfl
+      obtain ⟨⟨k', hk', hrk'⟩, hmin'⟩ := hs' r' rfl
+      have h1 : r.natAbs ≤ r'.natAbs := by rw [hrk']; exact hmin k' (hp.mem_iff.2 hk')
+      have h2 : r'.natAbs ≤ r.natAbs := by rw [hrk]; exact hmin' k (hp.mem_iff.1 hk)
+      simp only [Option.map_some, Option.some.injEq]
+      omega
+
+/-- and success does not depend on the order either -/
+theorem cancelWith_isOk_perm (self rxn : Equil α) {ks ks' : List String} (hp : ks.Perm ks') :
+    (∃ c, cancelWith self rxn ks = .ok c) ↔ ∃ c, cancelWith self rxn ks' = .ok c := by
+  rw [cancelWith_isOk, cancelWith_isOk]
+  exact ⟨fun h k hk => h k (hp.mem_iff.2 hk), fun h k hk => h k (hp.mem_iff.1 hk)⟩
+
+
+/-! ### multipliers as arbitrary Python objects -/
+
+section field
+variable [Field α] [DecidableEq α]
+
+/-- for multipliers whose `is_integer` tells the truth the artificial outcome is never taken -/
+theorem rmulMul_sound (m : PyMul) (e : Equil α) (hs : m.Sound) :
+    rmulMul m e = if m.accepted then rmul m.val.num e else .error "TypeError" := by
+  unfold rmulMul
+  by_cases ha : m.accepted = true
+  · simp only [ha, if_true, hs ha]
+  · have ha' : m.accepted = false := by simpa using ha
+    simp [ha']
+
+/-- `m * e` for an arbitrary Python object `m` (with a truthful `is_integer`) returns an equilibrium **iff** the code's
+    `other_is_int` test accepts it, its integer value is not 0, `e` has a net effect and no `0 ** negative` is needed -/
+theorem rmulMul_isOk (m : PyMul) (e : Equil α) (hs : m.Sound) :
+    (∃ r, rmulMul m e = .ok r) ↔
+      m.accepted = true ∧ m.val.num ≠ 0 ∧ (∃ k, e.net k ≠ 0) ∧ (m.val.num < 0 → e.K ≠ some 0) := by
+  rw [rmulMul_sound m e hs]
+  by_cases ha : m.accepted = true
+  · simp only [ha, if_true, true_and]
+    exact rmul_isOk m.val.num e
+  · have ha' : m.accepted = false := by simpa using ha
+    simp [ha']
+
+/-- and the result is the `n`-fold equilibrium for `n` = the multiplier's integer value: stoichiometry and constant use the
+    SAME integer (what the `2.5 * e` defect violated) -/
+theorem rmulMul_result (m : PyMul) (e r : Equil α) (hs : m.Sound) (h : rmulMul m e = .ok r) :
+    (m.val : Rat) = (m.val.num : Rat) ∧ (∀ k, r.net k = m.val.num * e.net k) ∧ r.K = e.K.map (fun K => K ^ m.val.num) := by
+  rw [rmulMul_sound m e hs] at h
+  by_cases ha : m.accepted = true
+  · simp only [ha, if_true] at h
+    refine ⟨?_, fun k => net_rmul' h k, (K_rmul' h).1⟩
+    have hd := hs ha
+    conv_lhs => rw [← Rat.num_div_den m.val]
+    rw [hd]; simp
+  · have ha' : m.accepted = false := by simpa using ha
+    simp [ha'] at h
+
+end field
+
 end ChemModel.Equilibria
